@@ -1,12 +1,13 @@
 #!/usr/bin/env python3
 """run every registered check (quick by default) on the current tree and validate the evidence files"""
 import json, subprocess, sys, time, os
+V = os.path.dirname(os.path.dirname(os.path.abspath(__file__)))
 tier = sys.argv[1] if len(sys.argv) > 1 else "quick"
 props = sys.argv[2:] or ["C%02d" % i for i in range(1, 21)]
 bad = 0
 for p in props:
     t0 = time.time()
-    r = subprocess.run(["./check", p, tier], cwd="/verif", stdout=subprocess.PIPE, stderr=subprocess.DEVNULL, text=True)
+    r = subprocess.run(["./check", p, tier], cwd=V, stdout=subprocess.PIPE, stderr=subprocess.DEVNULL, text=True)
     lines = r.stdout.splitlines()
     viol = [l for l in lines if l.startswith("VIOLATION")]
     kf = [l for l in lines if l.startswith("KNOWN-FINDING")]
@@ -19,15 +20,15 @@ v = subprocess.run(["python3-vt", "-c", """
 import json, jsonschema, glob
 s = json.load(open('/root/.vp/EVIDENCE.schema.json'))
 n = 0
-for f in sorted(glob.glob('/verif/evidence/*.json')):
+for f in sorted(glob.glob('%s/evidence/*.json')):
     try:
         jsonschema.validate(json.load(open(f)), s)
     except Exception as e:
         n += 1
         print('INVALID', f, str(e)[:200])
-m = json.load(open('/verif/MANIFEST.json'))
+m = json.load(open('%s/MANIFEST.json'))
 jsonschema.validate(m, json.load(open('/root/.vp/MANIFEST.schema.json')))
 print('evidence files invalid:', n, '; manifest valid')
-"""], stdout=subprocess.PIPE, stderr=subprocess.STDOUT, text=True)
+""" % (V, V)], stdout=subprocess.PIPE, stderr=subprocess.STDOUT, text=True)
 print(v.stdout)
 sys.exit(1 if bad else 0)
